@@ -80,3 +80,25 @@ pub fn in_pool<T: Send>(cx: &mut engine::Ctx, threads: usize, f: impl FnOnce(&mu
         f(unsafe { &mut *p.0 })
     })
 }
+
+/// The same items behind iterators with different (honest) `size_hint`s:
+/// exact, `(0, Some(n))`, `(0, Some(usize::MAX))` (an unbounded range cut by a
+/// sentinel), `(0, None)`, and a chain.
+pub fn hinted<'a, T: Copy + 'a>(items: &'a [T], kind: u64) -> Box<dyn Iterator<Item = T> + 'a> {
+    match kind % 5 {
+        0 => Box::new(items.iter().copied()),
+        1 => Box::new(items.iter().copied().filter(|_| true)),
+        2 => Box::new((0..usize::MAX).map_while(move |i| items.get(i).copied())),
+        3 => {
+            let mut i = 0;
+            Box::new(std::iter::from_fn(move || {
+                i += 1;
+                items.get(i - 1).copied()
+            }))
+        }
+        _ => {
+            let h = items.len() / 2;
+            Box::new(items[..h].iter().copied().chain(items[h..].iter().copied().skip_while(|_| false)))
+        }
+    }
+}
